@@ -146,7 +146,7 @@ func cmdVerify(args []string) {
 	var results []*FuncResult
 	for _, k := range keys {
 		ct := p.contracts[k]
-		fn := fns[k]
+		fn := fns[baseKey(k)]
 		if ct == nil {
 			fmt.Printf("NO-CONTRACT %s\n", k)
 			continue
@@ -237,7 +237,7 @@ func cmdSelftest(args []string) {
 	var results []*FuncResult
 	bad := 0
 	for _, k := range keys {
-		fn := fns[k]
+		fn := fns[baseKey(k)]
 		if fn == nil {
 			fmt.Printf("NO-FUNCTION %s\n", k)
 			bad++
